@@ -402,6 +402,77 @@ def _step_of(pos, dlm):
     return None
 
 
+class _PatEval(object):
+    """tiny evaluator for 'which compiled pattern is this name': constants, string concatenation, conditional expressions over known
+    flags, re.compile / RegExp, module-level patterns, single-result helper functions, and names filled through a pure memo table"""
+
+    def __init__(self, cx, port, regs):
+        self.p = cx.port(port)
+        self.regs = regs
+        self.consts = _consts(cx, port)
+
+    def value(self, e, fd, env, depth):
+        if depth > 24:
+            return None
+        if isinstance(e, ast.Constant):
+            return e.value
+        if isinstance(e, ast.Name):
+            if e.id in env:
+                return env[e.id]
+            defs = [n.value for n in walk_no_nested(fd) if isinstance(n, ast.Assign) and len(n.targets) == 1 and is_name(n.targets[0], e.id)]
+            # look-ups in a table are transparent when the table is a pure memo (the miss branch defines the value)
+            real = [v for v in defs if not self._table_lookup(v, fd)]
+            if real:
+                vals = {self._freeze(self.value(v, fd, env, depth + 1)) for v in real}
+                return vals.pop() if len(vals) == 1 else None
+            if e.id in self.regs:
+                return ('rgx', self.regs[e.id][0])
+            if e.id in self.consts:
+                return self.consts[e.id]
+            return None
+        if isinstance(e, ast.IfExp):
+            t = self.value(e.test, fd, env, depth + 1)
+            if isinstance(t, bool):
+                return self.value(e.body if t else e.orelse, fd, env, depth + 1)
+            return None
+        if isinstance(e, ast.BinOp) and isinstance(e.op, ast.Add):
+            a, b = self.value(e.left, fd, env, depth + 1), self.value(e.right, fd, env, depth + 1)
+            return a + b if isinstance(a, str) and isinstance(b, str) else None
+        if isinstance(e, ast.Call):
+            d = dotted(e.func) or ''
+            if d in ('re.compile', 'RegExp') and e.args:
+                v = self.value(e.args[0], fd, env, depth + 1)
+                return ('rgx', v) if isinstance(v, str) else None
+            g = self.p.func('csv_utils', d, required=False) if d and '.' not in d else None
+            if g is not None:
+                params = [a.arg for a in g.args.args]
+                genv = {}
+                for prm, a in zip(params, e.args):
+                    v = self.value(a, fd, env, depth + 1)
+                    if v is not None:
+                        genv[prm] = v
+                rets = [r.value for r in walk_no_nested(g) if isinstance(r, ast.Return) and r.value is not None]
+                vals = {self._freeze(self.value(r, g, genv, depth + 1)) for r in rets}
+                return vals.pop() if len(vals) == 1 else None
+        return None
+
+    @staticmethod
+    def _freeze(v):
+        return v
+
+    def _table_lookup(self, v, fd):
+        from ..idioms import pure_memo_store
+        tbl = None
+        if isinstance(v, ast.Call) and isinstance(v.func, ast.Attribute) and v.func.attr == 'get' and isinstance(v.func.value, ast.Name):
+            tbl = v.func.value.id
+        elif isinstance(v, ast.Subscript) and isinstance(v.value, ast.Name):
+            tbl = v.value.id
+        if tbl is None:
+            return False
+        stores = [n for n in walk_no_nested(fd) if isinstance(n, ast.Assign) and isinstance(n.targets[0], ast.Subscript) and is_name(n.targets[0].value, tbl)]
+        return bool(stores) and all(pure_memo_store(fd, st, tbl, self.consts) for st in stores)
+
+
 def rule_cs_extws(cx, rep, port):
     """external spaces around a quoted field are allowed iff the delimiter is not a space; trailing delimiter -> final empty field;
     fast path only when the line has no quote"""
@@ -419,8 +490,25 @@ def rule_cs_extws(cx, rep, port):
     # the switch selects the regex in extract_next_field
     ef = p.func('csv_utils', 'extract_next_field')
     sel = [n for n in walk_no_nested(ef) if isinstance(n, ast.IfExp) and is_name(n.test, ef.args.args[3].arg)]
-    ok_sel = len(sel) == 1 and is_name(sel[0].body, 'field_rgx_external_whitespaces') and is_name(sel[0].orelse, 'field_rgx')
-    rep.decide(ok_sel, 'regex selection', sel[0] if sel else ef, 'external-whitespace regex iff allowed', 'the regex variants are selected the wrong way round / not by the external-whitespace switch')
+    regs = _module_regexes(cx, port)
+    mcall = [c for c in walk_no_nested(ef) if isinstance(c, ast.Call) and isinstance(c.func, ast.Attribute) and c.func.attr in ('match', 'exec') and isinstance(c.func.value, ast.Name)]
+    pats = None
+    if len(mcall) == 1 and not sel:
+        # the pattern object applied to the line, evaluated once with the switch on and once with it off (helpers and pure memo tables are followed)
+        sw = ef.args.args[3].arg
+        ev = _PatEval(cx, port, regs)
+        pats = (ev.value(mcall[0].func.value, ef, {sw: True}, 0), ev.value(mcall[0].func.value, ef, {sw: False}, 0))
+    if pats is not None and all(isinstance(x, tuple) and x[0] == 'rgx' for x in pats):
+        la, lb = _lang(pats[0][1], port), _lang(pats[1][1], port)
+        ok_sel = R.accepts(la, ' "a" ') and not R.accepts(lb, ' "a" ') and R.accepts(lb, '"a"')
+        rep.decide(ok_sel, 'regex selection', mcall[0], 'external-whitespace regex iff allowed (patterns `{}` / `{}`)'.format(pats[0][1], pats[1][1]), 'the field regex used when surrounding spaces are allowed is `{}`, otherwise `{}`: the wrong way round or not distinguishing the two cases'.format(pats[0][1], pats[1][1]))
+    elif len(sel) == 1 and isinstance(sel[0].body, ast.Name) and isinstance(sel[0].orelse, ast.Name) and sel[0].body.id in regs and sel[0].orelse.id in regs:
+        # the arms are judged by their languages: the allowed arm accepts a quoted field with spaces around it, the other does not
+        la, lb = _lang(regs[sel[0].body.id][0], port), _lang(regs[sel[0].orelse.id][0], port)
+        ok_sel = R.accepts(la, ' "a" ') and not R.accepts(lb, ' "a" ') and R.accepts(lb, '"a"')
+        rep.decide(ok_sel, 'regex selection', sel[0], 'external-whitespace regex iff allowed', 'the regex variants are selected the wrong way round: surrounding spaces are accepted exactly when they are not allowed')
+    else:
+        rep.undecided('regex selection', sel[0] if sel else ef, 'how the external-whitespace switch selects the field regex was not recognised')
     # fast path
     fast = None
     for st in fd.body:
